@@ -32,6 +32,7 @@ func (t *verifPingTransport) Send(p ...*parser.Packet) {
 //
 //verif:unwind 12
 //verif:rand concrete
+//verif:preempt 1
 func verifH_C14_server() {
 	R := 2
 	if verifThorough() {
@@ -47,6 +48,7 @@ func verifH_C14_server() {
 	var reason Reason
 	var closedAt time.Time
 	verifTimers(true)
+	verifThreads(true) // the peer's answer may overtake the pinging goroutine at any synchronisation point (one preemption)
 	start := time.Now()
 	s := newServerSocket("sid1", nil, tr, verifCallbacks(), pi, pt, NewNoopDebugger(), nil)
 	s.setCallbacks(&Callbacks{OnClose: func(r Reason, err error) {
